@@ -216,7 +216,13 @@ def _limits(mem_gb):
 def run_cbmc(cfile, defines, opts, timeout, mem_gb, trace=False, extra=()):
     cmd = ['cbmc', cfile] + ['-D%s=%s' % (k, v) if v is not None else '-D%s' % k for k, v in defines.items()]
     cmd += ['-I', os.path.join(VERIF, 'rt'), '-I', os.path.join(VERIF, 'harness'), '-I', os.path.dirname(cfile), '-I', layout_dir()]
-    cmd += CBMC_BASE + list(opts) + list(extra)
+    # merge every --unwindset (harness, shape, string model) with the bounds of the runtime model's own loops
+    allopts = list(opts) + list(extra); merged = ['F___cxa_throw.0:5', 'exc_type_of.0:5', '__VERIF_isa.0:6']; rest = []
+    i = 0
+    while i < len(allopts):
+        if allopts[i] == '--unwindset' and i + 1 < len(allopts): merged.append(allopts[i + 1]); i += 2
+        else: rest.append(allopts[i]); i += 1
+    cmd += CBMC_BASE + rest + ['--unwindset', ','.join(merged)]
     if trace: cmd += ['--trace']
     t0 = time.time()
     try:
